@@ -181,9 +181,52 @@ def _d0(ck, facts):
     ck.note('E3-steps: %d diagrams, %d decomposition steps decided (%s), %d declined' % (tot['diagrams'], tot['steps'], ', '.join('%s %d' % kv for kv in sorted(tot['per_decomp'].items())), tot['declined']))
 
 
+def cat_size_tables(ck, facts):
+    """every `match <cat_ts result>.len() { .. }` in decompose.rs, evaluated arm by arm for every length cat_ts can return (no cat: 0; a Pauli centre plus
+    3..6 T legs: 4..7): no reachable length may fall into a panicking arm.  (The set of lengths is what R-MATCH-point establishes for cat_ts.)"""
+    from .. import minirust
+    n = 0
+    for key, f in sorted(facts['fns'].items()):
+        if not key.startswith(('decompose::', '<decompose::')) or f.get('from_macro'):
+            continue
+        cat_locals = {}
+        for node in hir.nodes(f['hir']):
+            if node.get('k') == 'Let' and node.get('init') is not None and node['pat'].get('k') == 'Bind':
+                i = hir.strip(node['init'])
+                if i.get('k') == 'Call' and (hir.callee(i) or '') == 'decompose::cat_ts':
+                    cat_locals[node['pat']['id']] = node['pat']['name']
+        if not cat_locals:
+            continue
+        for m in hir.find(f['hir'], 'Match'):
+            sc = hir.strip(m['scrut'])
+            if not (sc.get('k') == 'MethodCall' and sc['name'] == 'len' and not sc['args']):
+                continue
+            loc = hir.local(hir.strip(sc['recv']))
+            if not loc or loc[1] not in cat_locals:
+                continue
+            n += 1
+            bad, und = [], None
+            for L in (0, 4, 5, 6, 7):
+                it = minirust.Interp(fuel=2000, facts=facts, inline=lambda c: False)
+                try:
+                    it.ev(m, {loc[1]: list(range(100, 100 + L))})
+                except minirust.Panics as ex:
+                    bad.append('%d (%s)' % (L, 'no cat' if L == 0 else 'a cat with %d legs' % (L - 1)))
+                except (minirust._Return, minirust._Break, minirust._Continue):
+                    pass
+                except (minirust.NoEval, minirust.Proceed, TypeError, KeyError, IndexError, AttributeError) as ex:
+                    und = str(ex)[:80]
+            ck.fn(key)
+            ck.ob3('R-TABLE-catsize', '%s/every-cat-size-has-an-arm' % key, False if bad else (None if und else True), ck.site(key, m),
+                   ('the table keyed by the length of the cat_ts result panics for the length(s) %s, which cat_ts returns (centre + 3..6 legs)' % ', '.join(bad)) if bad else 'an arm of the table is not evaluable (%s)' % und,
+                   sample={'function': key, 'lengths': [0, 4, 5, 6, 7]})
+    ck.floor('R-TABLE-catsize', n, 1)
+
+
 def _run_own(ck):
     facts = ck.facts
     from refs import effects_ref as E
+    cat_size_tables(ck, facts)
     ck.decided('D1 parallel = sequential by construction: in decompose_graph and try_decompose_by_components the two branches of `if parallel` differ only in into_par_iter vs into_iter and a cloned decomposer as receiver (same source, same recursive call and arguments, same post-processing); no unsafe block, no interior mutability in Decomposer / drivers / graphs',
                'D2 terms are summed, components multiplied (reduction and node constructor agree with the node kind in every function and match arm), the graph scalar is assigned to exactly one component',
                'D3 drivers hand each decomposition what it needs: cat_ts and the Sherlock inline matcher establish the cat contract at the point a cat is built, cat sizes are within 3..6, CatDecomp arguments flow from cat_ts under a non-empty guard, Magic5FromCat gets exactly 5 T vertices, T selectors pick only T spiders, apply_ts_decomp dispatches 6 / >=2 / 1 to BSS / sym / single',
